@@ -534,7 +534,9 @@ def matches_known(k, g, cfg):
     try:
       if not eval(k['when'], {'__builtins__': {'any': any, 'all': all, 'len': len, 'set': set,
                                                'bool': bool, 'max': max, 'min': min,
-                                               'sum': sum, 'abs': abs, 'tuple': tuple, 'list': list},
+                                               'sum': sum, 'abs': abs, 'tuple': tuple, 'list': list, 'zip': zip,
+                                               'range': range, 'enumerate': enumerate, 'str': str,
+                                               'float': float, 'int': int, 'isinstance': isinstance},
                             'cfg': cfg}):  # pylint: disable=eval-used
         return False
     except Exception:  # pylint: disable=broad-except
